@@ -457,9 +457,12 @@ func booleanEncoder(_ io.Writer, val interface{}, _ *[8]byte) error {
 func booleanDecoder(_ io.Reader, val interface{}, _ *[8]byte,
 	l uint64) error {
 
-	if _, ok := val.(*TrueBoolean); ok && (l == 0 || l == 1) {
+	// The record carries no value and the decoder reads nothing, so a
+	// non-zero length would leave the value bytes to be parsed as the next
+	// record.
+	if _, ok := val.(*TrueBoolean); ok && l == 0 {
 		return nil
 	}
 
-	return tlv.NewTypeForEncodingErr(val, "TrueBoolean")
+	return tlv.NewTypeForDecodingErr(val, "TrueBoolean", l, 0)
 }
